@@ -16,6 +16,9 @@ Definition result_ok (script : list outcome) (prev : option (nat * outcome)) (i 
   | RRegionErr j => j + 1 = i + n_attempts evs /\
       ((j + 1 = i /\ exists t o, prev = Some (t, o) /\ is_region_err o = true) \/
        (i <= j /\ j - i < length script /\ is_region_err (nth (j - i) script OSuccess) = true))
+  | RFatal j => j + 1 = i + n_attempts evs /\
+      ((j + 1 = i /\ exists t o, prev = Some (t, o) /\ is_fatal o = true) \/
+       (i <= j /\ j - i < length script /\ is_fatal (nth (j - i) script OSuccess) = true))
   | _ => True
   end.
 
@@ -24,12 +27,13 @@ Proof.
   induction script as [|o rest IH]; intros s prev i evs r OK H; rewrite loop_unfold in H;
     pose proof (pre_spec fixed c s prev i) as P;
     assert (P' : match pre fixed c s prev i with HRetry _ _ => True | HDone _ r0 _ =>
-               match r0 with RSuccess _ => False | RRegionErr j => j + 1 = i /\ exists t o, prev = Some (t, o) /\ is_region_err o = true | _ => True end end).
+               match r0 with RSuccess _ => False | RRegionErr j => j + 1 = i /\ exists t o, prev = Some (t, o) /\ is_region_err o = true
+                             | RFatal j => j + 1 = i /\ exists t o, prev = Some (t, o) /\ is_fatal o = true | _ => True end end).
     1,3: (unfold pre; destruct (c_interruptible c && killed s && _); [exact I|]; destruct prev as [[t o']|]; [|exact I]; destruct OK as [O1 O2];
           pose proof (handle_q fixed c s t o' (pred i)) as HQ; destruct (handle fixed c s t o' (pred i)) as [|sd0 r0 e0]; [exact I|];
-          destruct r0; auto; destruct HQ as [-> HQ]; split; [lia|eauto]).
+          destruct r0; auto; destruct HQ as [-> HQ]; (split; [lia|eauto])).
   all: destruct (pre fixed c s prev i) as [s1 evs1|sd r0 evs1];
-    [| injection H as <- <-; destruct P as [PA _]; destruct r0; unfold result_ok; auto; try tauto; destruct P' as [P1 P2]; split; [lia|left; auto]].
+    [| injection H as <- <-; destruct P as [PA _]; destruct r0; unfold result_ok; auto; try tauto; destruct P' as [P1 P2]; (split; [lia|left; auto])].
   all: destruct P as [_ P2]; cbv zeta in H;
     pose proof (sel_phase_spec c (if 0 <? i then set_q_retry true s1 else s1)) as Q;
     pose proof (sel_phase_q c (if 0 <? i then set_q_retry true s1 else s1)) as Q';
@@ -47,6 +51,9 @@ Proof.
       - destruct L as (L1 & L2 & L3). replace (i0 - i) with (S (i0 - S i)) by lia. cbn [nth]. repeat split; try lia. exact L3.
       - destruct L as (L1 & [(L2 & t' & o' & E & L3) | (L2 & L3 & L4)]); split; try lia; right.
         + injection E as <- <-. destruct (dead s2); [discriminate|]. replace (i0 - i) with 0 by lia. cbn [nth length]. repeat split; try lia. exact L3.
+        + replace (i0 - i) with (S (i0 - S i)) by lia. cbn [nth length]. repeat split; try lia. exact L4.
+      - destruct L as (L1 & [(L2 & t' & o' & E & L3) | (L2 & L3 & L4)]); split; try lia; right.
+        + injection E as <- <-. destruct (dead s2); [discriminate|]. replace (i0 - i) with 0 by lia. cbn [nth length]. repeat split; try lia. exact L3.
         + replace (i0 - i) with (S (i0 - S i)) by lia. cbn [nth length]. repeat split; try lia. exact L4. }
     destruct o; try (injection H as <- <-; now apply SUCC);
       (destruct (loop_gen fixed c rest (raise_att c i (after_send s2 t)) _ (S i)) as [evs' r'] eqn:L; injection H as <- <-; apply REC; [discriminate|first [assumption|reflexivity]]).
@@ -56,12 +63,14 @@ Lemma run_result c script rands sleeps evs r : run_gen fixed c script rands slee
   match r with
   | RSuccess j => j + 1 = n_attempts evs /\ nth j script OSuccess = OSuccess
   | RRegionErr j => j + 1 = n_attempts evs /\ j < length script /\ is_region_err (nth j script OSuccess) = true
+  | RFatal j => j + 1 = n_attempts evs /\ j < length script /\ is_fatal (nth j script OSuccess) = true
   | _ => True
   end.
 Proof.
   unfold run_gen. destruct (validation_refuses c). { intros H; injection H as <- <-. exact I. }
   intros H. apply loop_result in H; [|exact I]. destruct r; cbn in *; auto.
   - destruct H as (A & _ & B). rewrite Nat.sub_0_r in B. auto.
+  - destruct H as (A & [(B & t & o & E & _) | (_ & B & C)]); [discriminate|]. rewrite Nat.sub_0_r in *. auto.
   - destruct H as (A & [(B & t & o & E & _) | (_ & B & C)]); [discriminate|]. rewrite Nat.sub_0_r in *. auto.
 Qed.
 
